@@ -467,6 +467,11 @@ def run_search(ctx, binary, gr):
                 "while body, from body} of length 0..3 (quick: 4 core statements at depth <= 3, all %d statement forms at depth <= 2; "
                 "thorough: all forms at depth <= 3 and break/continue at depth 4)" % len(peg_gen.CONTROL_STMTS),
         "cases": sum(1 for c in cases if c["stream"] == "control-nesting"), "wrappers": sorted(peg_gen.CONTROL_WRAPPERS)}
+    ctx.cov["nearly_valid_deep_code"] = {
+        "rule": "one operand missing in (or the closing brackets missing after) the innermost of k = 12 / 20 / 32 nested function literals, in 9 shapes "
+                "(callback argument, method callback, second argument, list / map of functions, callback inside if, returned and called, assigned, method body), "
+                "each with its valid twin; flat operator chains of 650-1300 operands below 4 kB",
+        "cases": sum(1 for c in cases if c["name"].startswith(("backtracking:", "breadth:long-chain")))}
     ctx.cov["search"] = {"label": "SEARCH, not proof: exit-status observation of the real compiler",
                          "inputs_run": n, "by_exit": by_exit, "by_stream": by_stream, "slow_over_2s": slow[:10],
                          "distinct_failure_sites": sites, "timeout_s": TIMEOUT, "max_bytes": MAX_BYTES}
